@@ -11,6 +11,8 @@ V4 ring request only in state >= 1: 1 <= order <= state, next = state - order
 V5 ring formation: a != b, not already bonded, 1 <= order <= free valence at both ends; an existing bond
    is raised by at most the free valence and to at most 3
 V6 bookkeeping: every bond mutator adds the same delta to the bond counts of both endpoints
+V8 table in force: every memo that reads the table is cleared on every table change, the setter binds a module-owned
+   copy and the getter returns a copy (so the table cannot change behind the memoised capacities)
 V7 capacity = table capacity - explicit H; a symbol with negative capacity is rejected; the bond order of
    an atom symbol comes from its bond-prefix character (1..3)
 W1 writer: ")" is emitted exactly for the children that were opened with "("
@@ -880,6 +882,20 @@ def run(ctx, rep):
     from rules.C06 import check_capacity_lookup
     eff = Effects(ctx)
     check_capacity_lookup(ctx, rep, eff, eff.table_vars()[1], "V7")
+    # V8: the capacities used are those of the table in force: every memo of the table is cleared on every change, and
+    # the table can change only through the setter (it is a module-owned copy)   (shared with C06/Q4, C12/G2)
+    from rules.shared import memo_readers, MemoFlow, check_table_owned
+    setter, table_vars = eff.table_vars()
+    plain, _sk = memo_readers(ctx, eff, table_vars)
+    MemoFlow(ctx, eff, setter, rep, plain, table_vars).run(frozenset())
+    for o in rep.obs:
+        if o.rule == "G6":
+            o.rule = "V8"
+            o.key = o.key.replace("/G6/", "/V8/")
+            rep.counts["V8"] = rep.counts.get("V8", 0) + 1
+    rep.counts.pop("G6", None)
+    check_table_owned(ctx, rep, "V8")
+    rep.floor("V8", 3)
     check_writer(ctx, rep)
     rep.analysed.update({"derivation_function": R["D"].qual, "second_pass": R["second"].qual,
                          "iteration_paths": len(decmodel.iterations(m))})
